@@ -5,9 +5,9 @@
    the model must observe the same.
    [tcase]: a concurrent run; every answer carries the window [lo, hi] of
    update counts that may have preceded it; some prefix in the window must
-   explain it (trace validation against C13_rw_atomic). *)
+   explain it (trace validation against C13_rw_serial_by_definition). *)
 From Coq Require Import List NArith ZArith Bool.
-From Verif Require Export Model.Announcer Model.AnnouncerExt.
+From Verif Require Export Model.Announcer Model.AnnouncerExt Model.AnnouncerJoin.
 Import ListNotations.
 
 Inductive obs :=
@@ -99,3 +99,13 @@ Fixpoint xsteps_ok (s : st) (l : list (cev * list obs)) : bool :=
   end.
 Definition xmismatches (cs : list xcase) : list N :=
   map xc_id (filter (fun c => negb (xsteps_ok (init [] []) (xc_steps c))) cs).
+
+(* ---- histories with failing multicast joins (real responders in a private network namespace) ---- *)
+Record jcase := mk_jcase { jc_id : N; jc_ndps : list N; jc_steps : list (updj * list obs) }.
+Fixpoint jsteps_ok (s : st) (l : list (updj * list obs)) : bool :=
+  match l with
+  | [] => true
+  | (u, os) :: r => let s' := apply_updj s u in forallb (obs_ok s') os && jsteps_ok s' r
+  end.
+Definition jmismatches (cs : list jcase) : list N :=
+  map jc_id (filter (fun c => negb (jsteps_ok (init (jc_ndps c) (jc_ndps c)) (jc_steps c))) cs).
